@@ -45,7 +45,7 @@ func main() {
 	for _, job := range []struct {
 		name string
 		fn   func(string) string
-	}{{"Render.lean", genRender}, {"Tables.lean", genTables}, {"Nodes.lean", genNodes}} {
+	}{{"Render.lean", genRender}, {"Tables.lean", genTables}, {"Nodes.lean", genNodes}, {"Decisions.lean", genDecisions}} {
 		text, err := run(job.fn, repo)
 		if err != nil {
 			fmt.Fprintf(os.Stderr, "extract: %s: %v\n", job.name, err)
